@@ -17,6 +17,7 @@ class TimedSwitch(SystemWideDevice, ModeDevice):
         """Initialize Timed Switch."""
         super().__init__(machine, name)
         self.active_switches = set()
+        self._switch_handlers = []
 
     def validate_and_parse_config(self, config: dict, is_mode_config: bool, debug_prefix: str = None) -> dict:
         """Validate and parse config."""
@@ -42,6 +43,14 @@ class TimedSwitch(SystemWideDevice, ModeDevice):
                 if switch not in self.config['switches']:
                     self.config['switches'].append(switch)
 
+    async def device_added_system_wide(self):
+        """Register switch handlers for a machine-wide timed switch."""
+        await super().device_added_system_wide()
+        self._register_switch_handlers()
+
+    def device_loaded_in_mode(self, mode, player):
+        """Register switch handlers while the mode is running."""
+        super().device_loaded_in_mode(mode, player)
         self._register_switch_handlers()
 
     @property
@@ -56,24 +65,23 @@ class TimedSwitch(SystemWideDevice, ModeDevice):
         ----
             mode: mode which stopped
         """
-        del mode
+        super().device_removed_from_mode(mode)
         self._remove_switch_handlers()
+        self.active_switches = set()
 
     def _register_switch_handlers(self):
         for switch in self.config['switches']:
-            switch.add_handler(self._activate,
-                               state=self.config['state'] ^ 0,
-                               ms=self.config['time'], return_info=True)
-            switch.add_handler(self._deactivate,
-                               state=self.config['state'] ^ 1,
-                               ms=0, return_info=True)
+            self._switch_handlers.append(switch.add_handler(self._activate,
+                                                            state=self.config['state'] ^ 0,
+                                                            ms=self.config['time'], return_info=True))
+            self._switch_handlers.append(switch.add_handler(self._deactivate,
+                                                            state=self.config['state'] ^ 1,
+                                                            ms=0, return_info=True))
 
     def _remove_switch_handlers(self):
-        for switch in self.config['switches']:
-            switch.remove_handler(self._activate,
-                                  state=1 if self.config['state'] else 0)
-            switch.remove_handler(self._deactivate,
-                                  state=0 if self.config['state'] else 1)
+        # remove by the keys which were returned on registration (ms and the return_info wrapper have to match)
+        self.machine.switch_controller.remove_switch_handler_by_keys(self._switch_handlers)
+        self._switch_handlers = []
 
     def _activate(self, switch_name, state, ms):
         del state, ms
